@@ -22,7 +22,7 @@ for sid in ids:
     try:
         for ck in checks:
             t0=time.time()
-            p=subprocess.run('./check %s %s'%(ck,tier),shell=True,cwd=root,capture_output=True,text=True)
+            p=subprocess.run('./check %s %s'%(ck,tier),shell=True,cwd=root,capture_output=True,text=True,errors='replace')
             kinds=sorted(set(l.split()[1].split('=')[1] for l in p.stdout.splitlines() if l.startswith('violation kind=')))
             nv=sum(1 for l in p.stdout.splitlines() if l.startswith('VIOLATION'))
             res={'tier':tier,'exit':p.returncode,'violation_lines':nv,'violation_kinds':kinds,'wall_s':round(time.time()-t0,1)}
